@@ -67,6 +67,9 @@ def check(report: Report, repo: Repo) -> None:
             if name_ and "torch" in name_ and any(name_.split("(")[0].rstrip(")").endswith(x_) or ("." + x_ + "(") in name_ or name_.endswith("." + x_) for x_ in RNG_STATE):
                 touching.append(name_[:60])
         gen_kw = [fmt(e["kwargs"].get("generator")) for e in rcalls if e["kwargs"].get("generator") is not None]
+        from .common import global_state_calls
+
+        touching += [x_ for x_ in global_state_calls(events) if x_ not in touching]
         report.add("R1-draws", f"{cons}::rng-state", not touching and not gen_kw, "quantise only draws: it does not seed, fork, save or restore random-generator state and uses the ambient generator (successive calls must see fresh draws)", touching + gen_kw, [], nontrivial=False)
         got_i = TM.instances(canon(TM.normalize(TM.term_of(res))))
         exp_i = TM.instances(canon(TM.normalize(TM.term_of(ref_term(it, "stochastic", SR, 0, shape=XS)))))
@@ -100,6 +103,9 @@ def check(report: Report, repo: Repo) -> None:
         report.add("R4-default-srbits", cpi, None, f"outside fragment: {ex}")
     # the random-bit count in effect is the one of the format object the caller used (no cross-call
     # caching of the straight-through quantiser keyed by the printed name, which omits srbits)
+    from .c15 import check_backend_process_state
+
+    check_backend_process_state(report, repo, "R1-draws")
     from .c15 import check_per_format
 
     check_per_format(report, repo, "R5-per-format")
